@@ -86,6 +86,11 @@ Print Assumptions C20_dyn_get_in_range.
    domain is not a behaviour of the code but of the allocator / of C itself:
      Reserve n, Clone        a request above [rt_limit] = 2^20 cells (malloc's answer is not modelled)
      PushStruct bs           a struct of 0 bytes (not a C99 object) or of >= 256^sizeof(elem_size) = 2^32 bytes
+   and ONE open defect of the unchanged tree (found by an outside reviewer, finding c20:dyn:push-own-struct-elem):
+     PushStructElem i        dyn_array_push_struct(arr, dyn_array_get_struct(arr, i), elem_size), i.e. what the transpiler emits for
+                             (array_push xs (at xs i)) on an array<struct>: at length == capacity the block is realloc'ed and the
+                             memcpy reads the freed source (C20_dyn_refines_list_refuted).  Excluded while [rt_push_self_safe]
+                             (measured on the current code) is false.
    C20_dyn_excluded_iff is the exact characterisation; together with C20_dyn_refines_list: every history whose allocation
    requests stay below the limit behaves as the typed sequence. *)
 Theorem C20_dyn_excluded_iff : forall l o, lstep rt_params l o = LExcluded <->
@@ -93,6 +98,7 @@ Theorem C20_dyn_excluded_iff : forall l o, lstep rt_params l o = LExcluded <->
   | Reserve n => (p_limit rt_params < n)%Z
   | Clone => (p_limit rt_params < Z.of_nat (length (l_items l)))%Z
   | PushStruct bs => struct_size_ok rt_params bs = false
+  | PushStructElem i => rt_push_self_safe = false
   | _ => False
   end.
 Proof.
@@ -110,6 +116,7 @@ Proof.
     + apply Z.ltb_lt in H. rewrite H. reflexivity.
     + apply Z.ltb_lt in H. rewrite H. reflexivity.
     + rewrite H. reflexivity.
+    + change (p_push_self_safe rt_params) with rt_push_self_safe. rewrite H. reflexivity.
 Qed.
 Print Assumptions C20_dyn_excluded_iff.
 
@@ -117,6 +124,23 @@ Print Assumptions C20_dyn_excluded_iff.
 Theorem C20_dyn_slice_never_excluded : forall l a b, lstep rt_params l (Slice a b) <> LExcluded.
 Proof. intros l a b H. apply C20_dyn_excluded_iff in H. exact H. Qed.
 Print Assumptions C20_dyn_slice_never_excluded.
+
+(* REFUTED at full strength while the defect is present: pushing an element of the array onto the same struct array works
+   below capacity and is a use-after-free exactly when the array has to grow -- the outcome depends on the capacity, which no
+   sequence has.  [rt_push_self_safe] is measured by replaying this witness on the current code in a sanitized child process;
+   with proposed_fixes/C20-push-own-struct-elem.diff applied it is true and the same history ends as the list says.
+   Replayed on the real code by tools/props/c20.py (dyn_probe: c20:dyn:push-own-struct-elem; native programs:
+   c20:native:asan:array_push:own-struct-element:len8 / :len16). *)
+Theorem C20_dyn_refines_list_refuted :
+  let fill := map (fun n => PushStruct [N.of_nat n; 7]%N) (seq 0 8) in
+  (* seven elements: capacity 8 not reached, the self push is fine on every tree *)
+  fst (run rt_params (dyn_new rt_params EStruct) (firstn 7 fill ++ [PushStructElem 0; GetStruct 7])) = repeat OUnit 8 ++ [OCell (Blob [0; 7]%N)] /\
+  (* eight elements: length == capacity *)
+  (if rt_push_self_safe
+   then fst (run rt_params (dyn_new rt_params EStruct) (fill ++ [PushStructElem 0; GetStruct 8; Length])) = repeat OUnit 9 ++ [OCell (Blob [0; 7]%N); OLen 9]
+   else snd (run rt_params (dyn_new rt_params EStruct) (fill ++ [PushStructElem 0])) = Crashed).
+Proof. vm_compute. split; reflexivity. Qed.
+Print Assumptions C20_dyn_refines_list_refuted.
 
 (* regression guards.  (1) the translator replays the witnesses of the repaired findings on the current code in a sanitized
    child process; (2) the former Crash witnesses now run to the end, in the array machine itself, with the list's answers
